@@ -12,7 +12,8 @@ same `Bytes`, because C15 and C18 are about their (dis)agreement.
                        `packet.len() <= start`
 * `analyzerView`       what `process.rs` / `*_process.rs` of each analyzer decode before they touch any
                        state or report anything (the gates that make a frame inert)
-* `rawFilterExtract`   huginn-net-{tcp,http,tls}/src/raw_filter.rs `extract_quick_info` (identical x3)
+* `rawFilterExtract`   huginn-net-{tcp,http,tls}/src/raw_filter.rs `extract_quick_info` (identical x3; after
+                       the fixes 68f354c — ports at max(ihl*4,20) — and 1765a5f — `1e 00` loopback header)
 * `hashInputTcp/Http/Tls`  the three packet_hash.rs: which bytes / fields are fed to the hasher
 
 Everything is total: every index is guarded by the same length test the Rust code performs, so the
@@ -197,12 +198,16 @@ def analyzerEndpoints (a : Analyzer) (p : Bytes) : Option Ep :=
 
 /-! ### raw_filter.rs -/
 
-/-- `extract_ipv4_info`: 20 bytes, protocol 6, ports at `ihl*4` (4 bytes must be there). -/
+/-- `ihl.saturating_mul(4).max(20)`: where pnet places the IPv4 payload (fix 68f354c; raw filter
+and the HTTP/TLS hashers). -/
+def v4PortOff (ip : Bytes) : Nat := max (v4Ihl ip * 4) 20
+
+/-- `extract_ipv4_info`: 20 bytes, protocol 6, ports at `max(ihl*4, 20)` (4 bytes must be there). -/
 def extractV4 (ip : Bytes) : Option Ep :=
   if ip.length < 20 then none
   else if byte ip 9 ≠ 6 then none
-  else if ip.length < v4Ihl ip * 4 + 4 then none
-  else some ⟨.v4, slice ip 12 4, slice ip 16 4, be16 ip (v4Ihl ip * 4), be16 ip (v4Ihl ip * 4 + 2)⟩
+  else if ip.length < v4PortOff ip + 4 then none
+  else some ⟨.v4, slice ip 12 4, slice ip 16 4, be16 ip (v4PortOff ip), be16 ip (v4PortOff ip + 2)⟩
 
 /-- `extract_ipv6_info`: 40 bytes, next header 6, ports at 40 (44 bytes must be there). -/
 def extractV6 (ip : Bytes) : Option Ep :=
@@ -228,8 +233,14 @@ the targets the harness runs on; a big-endian build would read the family from b
 def nullFamily (p : Bytes) : Nat :=
   byte p 0 + 256 * byte p 1 + 65536 * byte p 2 + 16777216 * byte p 3
 
+/-- `try_null_datalink`: the loopback header `1e 00 xx xx` exactly as packet_parser accepts it
+(version from the first nibble of the IP header; fix 1765a5f), else the native-endian family. -/
 def rfNull (p : Bytes) : Option Ep :=
   if p.length < 4 then none
+  else if byte p 0 = 0x1e ∧ byte p 1 = 0 ∧ 4 < p.length then
+    (if byte p 4 / 16 = 4 then extractV4 (p.drop 4)
+     else if byte p 4 / 16 = 6 then extractV6 (p.drop 4)
+     else none)
   else if nullFamily p = 2 then extractV4 (p.drop 4)
   else if nullFamily p = 30 ∨ nullFamily p = 28 then extractV6 (p.drop 4)
   else none
@@ -323,8 +334,8 @@ def canonFlow (s d : Bytes) (sp dp : Nat) : HashIn :=
 def hashV4FlowHttp (ip : Bytes) : HashIn :=
   if ip.length < 20 then .bytes ip
   else if byte ip 9 ≠ 6 then .bytes (slice ip 12 4)
-  else if ip.length < v4Ihl ip * 4 + 4 then .bytes (slice ip 12 4)
-  else canonFlow (slice ip 12 4) (slice ip 16 4) (be16 ip (v4Ihl ip * 4)) (be16 ip (v4Ihl ip * 4 + 2))
+  else if ip.length < v4PortOff ip + 4 then .bytes (slice ip 12 4)
+  else canonFlow (slice ip 12 4) (slice ip 16 4) (be16 ip (v4PortOff ip)) (be16 ip (v4PortOff ip + 2))
 
 def hashV6FlowHttp (ip : Bytes) : HashIn :=
   if ip.length < 40 then .bytes ip
@@ -344,8 +355,8 @@ def hashInputHttp (p : Bytes) : HashIn :=
 def hashV4FlowTls (ip : Bytes) : Option HashIn :=
   if ip.length < 20 then none
   else if byte ip 9 ≠ 6 then none
-  else if ip.length < v4Ihl ip * 4 + 4 then none
-  else some (.flow (slice ip 12 4) (slice ip 16 4) (be16 ip (v4Ihl ip * 4)) (be16 ip (v4Ihl ip * 4 + 2)))
+  else if ip.length < v4PortOff ip + 4 then none
+  else some (.flow (slice ip 12 4) (slice ip 16 4) (be16 ip (v4PortOff ip)) (be16 ip (v4PortOff ip + 2)))
 
 def hashV6FlowTls (ip : Bytes) : Option HashIn :=
   if ip.length < 40 then none
